@@ -79,7 +79,7 @@ def streams(ctx):
     for eco, gen in ECOS:
         cases, metas = [], []
         specs = [gen(rng) for _ in range(n)]
-        forced = []
+        forced, near_pairs = [], []
         for f in vlib.load_known_findings("C02"):
             w = f["witness"]
             if w[0] == "spec.judge" and w[1] == eco:
@@ -88,8 +88,15 @@ def streams(ctx):
             # exhaustive single-comparator lattice: every operator x every operand
             ops = gens.NPM_OPS
             specs += [o + x for o in ops for x in gens.OPERANDS]
-        for s in [w[0] for w in forced] + specs:
-            fv = [w[1] for w in forced if w[0] == s]
+            # ... and each of them against the versions around its operand, where its verdict changes
+            for o in ops:
+                for x in gens.OPERANDS:
+                    near = gens.near_versions(x)
+                    if tier == "quick":
+                        near = rng.shuffle(near)[:4]
+                    near_pairs += [(o + x, nv) for nv in near]
+        for s, fixed in [(w[0], None) for w in forced] + near_pairs + [(x, None) for x in specs]:
+            fv = [fixed] if fixed is not None else [w[1] for w in forced if w[0] == s]
             if fv:
                 v = fv[0]
             elif eco in ("go", "gha"):
